@@ -299,7 +299,8 @@ func runSessions(t *testing.T, c sessCase) error {
 	// The package keeps tokens, broker and config in globals that session goroutines of an
 	// earlier case may still be reading: they are written once per process (again only if a
 	// replayed case asks for another capacity).
-	if tokens == nil || int(tokens.capacity) != c.Capacity {
+	if tokens == nil || int(tokens.capacity) != c.Capacity || tokens.count() != 0 || len(tokens.ch) != 0 {
+		// (a dirty count can only be left behind by a case that has just failed)
 		tokens = newTokens(uint(c.Capacity))
 		config = webrtc.Configuration{}
 		u, _ := url.Parse("http://broker.test/")
@@ -497,6 +498,13 @@ func TestVerifC16Sessions(t *testing.T) {
 			return // time budget of this real-time unit used up: the remaining iterations are empty (not counted as cases)
 		}
 		c := sessCase{Capacity: 1 + vstat.Shard()%3, Pattern: "$", NonTLS: true} // constant per process, varied across shards
+		// half of the sequences run under a real relay policy: only 127.0.0.1 and friends by name
+		// pattern, with or without the non-TLS permission (the harness relay is ws://127.0.0.1:port)
+		strict := rapid.Bool().Draw(rt, "strictpolicy")
+		if strict {
+			c.Pattern = "0.0.1$"
+			c.NonTLS = rapid.Bool().Draw(rt, "nontls")
+		}
 		n := rapid.IntRange(1, 8).Draw(rt, "nsessions")
 		kinds := map[string]bool{}
 		success, reached := false, false
@@ -523,8 +531,16 @@ func TestVerifC16Sessions(t *testing.T) {
 				} else {
 					o = outcome{Kind: "answer-client-gone", RelayURL: relayURL}
 				}
+			case 5:
+				// "rejected relay URL": by host, by scheme, or both (kind relay-url checks the refusal itself)
+				o = outcome{Kind: "relay-url", RelayURL: rapid.SampledFrom([]string{"wss://evil.example.com/", "ws://evil.example.com/", "ws://127.0.0.1:9/", "http://127.0.0.1:9/", "wss://127.0.0.1:9/", "https://127.0.0.1:9/x", "://", "ws://user@127.0.0.1:9/"}).Draw(rt, "refusedurl")}
 			default:
 				o = outcome{Kind: rapid.SampledFrom(failKinds[:len(failKinds)-1]).Draw(rt, "failkind"), RelayURL: relayURL}
+			}
+			if strict && !c.NonTLS && (o.Kind == "connect-echo" || o.Kind == "connect-relay-unreachable") {
+				// the harness relay speaks plain ws: without the non-TLS permission such a session is
+				// refused at the relay-URL check (still a legitimate exit path)
+				o = outcome{Kind: "relay-url", RelayURL: o.RelayURL}
 			}
 			kinds[o.Kind] = true
 			c.Outcomes = append(c.Outcomes, o)
